@@ -1101,8 +1101,45 @@ func (c *Ctx) ruleX5() {
 		// header reads: Len()/Heads() of a log whose value ends up in a struct field that is
 		// then serialised (a store into a field of a struct literal)
 		var hdrReads []ssa.CallInstruction
+		// a read of the log's size or heads: the call itself, or a same-package helper that makes
+		// it and hands the result back
+		readsHeader := func(call ssa.CallInstruction) bool {
+			if c.isLogCall(call, "Len") || c.isLogCall(call, "Heads") {
+				return true
+			}
+			h := call.Common().StaticCallee()
+			if h == nil || h.Blocks == nil || h.Pkg != g.Pkg || h == g {
+				return false
+			}
+			var inner []ssa.Value
+			eachCall(h, func(ic ssa.CallInstruction) {
+				if (c.isLogCall(ic, "Len") || c.isLogCall(ic, "Heads")) && ic.Value() != nil {
+					inner = append(inner, ic.Value())
+				}
+			})
+			if len(inner) == 0 {
+				return false
+			}
+			dh := derived(inner, flowOpts{throughCalls: true})
+			returned := false
+			eachInstr(h, func(in ssa.Instruction) {
+				if r, ok := in.(*ssa.Return); ok {
+					for _, v := range r.Results {
+						if dh[v] {
+							returned = true
+						}
+						for _, y := range resolveSpill(v) {
+							if dh[y] {
+								returned = true
+							}
+						}
+					}
+				}
+			})
+			return returned
+		}
 		eachCall(g, func(call ssa.CallInstruction) {
-			if call.Value() == nil || (!c.isLogCall(call, "Len") && !c.isLogCall(call, "Heads")) {
+			if call.Value() == nil || !readsHeader(call) {
 				return
 			}
 			d := derived([]ssa.Value{call.Value()}, flowOpts{throughCalls: true})
@@ -1172,7 +1209,11 @@ func (c *Ctx) ruleX5() {
 					if !c.isControlFn(h) {
 						n++
 					}
-					cons := fmt.Sprintf("%s→%s()-before-entries", fnKey(h), methodName(hr))
+					hn := methodName(hr)
+					if !c.isLogCall(hr, "Len") && !c.isLogCall(hr, "Heads") {
+						hn = "Heads"
+					}
+					cons := fmt.Sprintf("%s→%s()-before-entries", fnKey(h), hn)
 					via := func(in ssa.Instruction) bool { return c.isSite(kind, in) }
 					if hit, tr := findPath(h, entry, via, mayRead, nil); hit != nil {
 						c.bad("X5", cons, hit.Pos(), "the entries written to the snapshot are read from the log before the "+methodName(hr)+"() that goes into its header: the log only grows, so an entry appended or merged between the two reads is promised by the header and missing from the body — the save reports success and the snapshot cannot be loaded (unexpected end of data)", c.trailStr(tr)...)
@@ -2541,27 +2582,53 @@ func (c *Ctx) ruleX7() {
 		c.floor("X7", "membership snapshot field", 0, 1)
 		return
 	}
-	// the diff: returns (at least) two lists of peers
+	// the diff: hands back (at least) two lists of peers — as results or as fields of a struct it
+	// returns — and compares memberships: it, or a same-package function it calls, builds or
+	// consults a set
+	peerLists := func(t types.Type) int {
+		if p, ok := t.Underlying().(*types.Pointer); ok {
+			t = p.Elem()
+		}
+		if sl, ok := t.Underlying().(*types.Slice); ok && strings.HasSuffix(typeStr(sl.Elem()), "peer.ID") {
+			return 1
+		}
+		k := 0
+		if st, ok := t.Underlying().(*types.Struct); ok {
+			for i := 0; i < st.NumFields(); i++ {
+				if sl, ok := st.Field(i).Type().Underlying().(*types.Slice); ok && strings.HasSuffix(typeStr(sl.Elem()), "peer.ID") {
+					k++
+				}
+			}
+		}
+		return k
+	}
+	var usesSet func(f *ssa.Function, depth int) bool
+	usesSet = func(f *ssa.Function, depth int) bool {
+		if f == nil || f.Blocks == nil || depth > 2 {
+			return false
+		}
+		found := false
+		eachInstr(f, func(in ssa.Instruction) {
+			switch x := in.(type) {
+			case *ssa.Lookup, *ssa.MapUpdate:
+				found = true
+			case ssa.CallInstruction:
+				if h := x.Common().StaticCallee(); h != nil && h.Pkg == f.Pkg && h != f && !found {
+					if usesSet(h, depth+1) {
+						found = true
+					}
+				}
+			}
+		})
+		return found
+	}
 	isDiff := func(f *ssa.Function) bool {
 		k := 0
 		res := f.Signature.Results()
 		for i := 0; i < res.Len(); i++ {
-			if sl, ok := res.At(i).Type().Underlying().(*types.Slice); ok && strings.HasSuffix(typeStr(sl.Elem()), "peer.ID") {
-				k++
-			}
+			k += peerLists(res.At(i).Type())
 		}
-		if k < 2 {
-			return false
-		}
-		// and compares memberships: builds or consults a set
-		compares := false
-		eachInstr(f, func(in ssa.Instruction) {
-			switch in.(type) {
-			case *ssa.Lookup, *ssa.MapUpdate:
-				compares = true
-			}
-		})
-		return compares
+		return k >= 2 && usesSet(f, 0)
 	}
 	var onlyVia func(w *ssa.Function, depth int, seen map[*ssa.Function]bool) (bool, string)
 	onlyVia = func(w *ssa.Function, depth int, seen map[*ssa.Function]bool) (bool, string) {
